@@ -150,7 +150,11 @@ func (s *SourceControl) Multiply(args *FactorArgs, reply *int) error {
 func (s *SourceControl) ConfigureTriangleSource(args *TriangleSourceConfig, reply *bool) error {
 	UpdateLogger.Printf("ConfigureTriangleSource: %d chan, rate=%.3f\n", args.Nchan, args.SampleRate)
 	err := s.triangle.Configure(args)
-	s.clientUpdates <- ClientUpdate{"TRIANGLE", args}
+	// Tell clients (and the saved configuration) only about a configuration the source accepted:
+	// the next start-up configures the source from the saved one and cannot proceed if it is refused.
+	if err == nil {
+		s.clientUpdates <- ClientUpdate{"TRIANGLE", args}
+	}
 	*reply = (err == nil)
 	UpdateLogger.Printf("Result is okay=%t and state={%d chan, rate=%.3f}\n", *reply, s.triangle.nchan, s.triangle.sampleRate)
 	return err
@@ -160,7 +164,9 @@ func (s *SourceControl) ConfigureTriangleSource(args *TriangleSourceConfig, repl
 func (s *SourceControl) ConfigureSimPulseSource(args *SimPulseSourceConfig, reply *bool) error {
 	UpdateLogger.Printf("ConfigureSimPulseSource: %d chan, rate=%.3f\n", args.Nchan, args.SampleRate)
 	err := s.simPulses.Configure(args)
-	s.clientUpdates <- ClientUpdate{"SIMPULSE", args}
+	if err == nil { // as for the triangle source: a refused configuration is not published or saved
+		s.clientUpdates <- ClientUpdate{"SIMPULSE", args}
+	}
 	*reply = (err == nil)
 	UpdateLogger.Printf("Result is okay=%t and state={%d chan, rate=%.3f}\n", *reply, s.simPulses.nchan, s.simPulses.sampleRate)
 	return err
